@@ -24,8 +24,7 @@ INVS = ['NoFault', 'NoForeignSignal', 'RunLive', 'CascadeShape', 'MutualExclusio
 def run(check):
     runs = []
     for label, consts, limit in CONFIGS[check.tier]:
-        check.model_check(label, 'USimProps', 'Spec', consts, INVS)
-        ws = check.witnesses(label, consts, emit='EmitOps')
+        ws = check.witnesses(label, consts, emit='EmitOps', invariants=INVS, coverage=check.tier == 'thorough')
         runs += [(p, t, consts['NRoots']) for p, t in usimrun.replay(check, ws, consts, limit=limit)]
     traces = [r[1] for r in runs]
     for idx, clause, pos in check.validate('ObsC09', traces):
